@@ -24,7 +24,8 @@ ORDER = ["side_partial_cmp", "ub_partial_cmp", "ub_matches", "ub_try_into_range"
          "ub_new", "ub_from_range", "ub_unpack", "ub_complement",
          "ubl_bounds_only", "ubl_is_sortable", "ubl_is_sorted", "ubl_has_negative_indices", "ubl_is_forward_only",
          "fast_try_from", "stream_try_from", "side_from_str", "ub_from_str",
-         "ubl_unpack", "ubl_complement", "cut_bytes", "fast_output_parts", "fast_cut_record"]
+         "ubl_unpack", "ubl_complement", "cut_bytes", "fast_output_parts", "fast_cut_record",
+         "fill_fields", "compress_delimiter"]
 DEPS = {"ub_partial_cmp": ["side_partial_cmp"], "ub_from_range": ["ub_new"], "ub_unpack": ["ub_new", "ub_try_into_range"],
         "ub_complement": ["ub_try_into_range", "complement_std_range", "ub_from_range", "ub_new"],
         "ubl_is_sortable": ["ubl_bounds_only"], "ubl_is_sorted": ["ubl_bounds_only", "ub_partial_cmp", "side_partial_cmp"],
@@ -33,6 +34,7 @@ DEPS = {"ub_partial_cmp": ["side_partial_cmp"], "ub_from_range": ["ub_new"], "ub
         "ubl_unpack": ["ub_unpack", "ub_new", "ub_try_into_range"],
         "cut_bytes": ["ub_try_into_range", "ubl_unpack", "ub_unpack", "ub_new"],
         "fast_output_parts": ["ub_try_into_range"],
+        "compress_delimiter": ["fill_fields"],
         "fast_cut_record": ["fast_output_parts", "ub_try_into_range", "fast_try_from"],
         "ubl_complement": ["ub_complement", "ub_try_into_range", "complement_std_range", "ub_from_range", "ub_new", "ubl_unpack",
                            "ubl_has_negative_indices", "ubl_bounds_only"],
@@ -62,6 +64,8 @@ USES = {
     "cut_bytes": ["C06", "C13"],
     "fast_output_parts": ["C02", "C13"],
     "fast_cut_record": ["C01", "C02", "C10"],
+    "fill_fields": ["C01", "C10"],
+    "compress_delimiter": ["C01", "C10"],
 }
 LEMMA = {n: "tie_" + n for n in ORDER}
 
@@ -116,7 +120,8 @@ def tie_check():
     model_vos += [os.path.join(COQ, "Model", "Stream.vo"), os.path.join(COQ, "Model", "FastLane.vo"), os.path.join(COQ, "Proofs", "C19.vo"),
                   os.path.join(COQ, "Proofs", "C03Full.vo")]
     model_vos += [os.path.join(COQ, "Model", "BoundsParse.vo"), os.path.join(COQ, "Proofs", "C18Iff.vo")]
-    for b in ("RsPrelude", "TieBase", "RsOpt", "RsStr", "RsList"):
+    model_vos += [os.path.join(COQ, "Model", "Scan.vo"), os.path.join(COQ, "Proofs", "ScanSplit.vo"), os.path.join(COQ, "Proofs", "C02.vo")]
+    for b in ("RsPrelude", "TieBase", "RsOpt", "RsStr", "RsList", "RsScan"):
         src = os.path.join(TIE, b + ".v")
         if not _fresh(b, [src] + (model_vos[:1] if b not in ("RsOpt", "RsStr") else [model_vos[0], model_vos[4], os.path.join(COQ, "Model", "BoundsParse.vo")]) + base):
             rc, out = _coqc(b)
